@@ -24,7 +24,7 @@ theorem ex_zero_of_notFin {c : Cfg} {n : Nat} {input : List α} {s : State α} (
 
 /-- close every goal that is literally a field of the old invariant (unchanged components are defeq) -/
 macro "old_fields" h:ident : tactic => `(tactic| all_goals try (first
-  | exact ($h).len | exact ($h).lockP | exact ($h).lockC | exact ($h).head_lt | exact ($h).qlen | exact ($h).tail_eq
+  | exact ($h).len | exact ($h).lockP | exact ($h).lockC | exact ($h).lockR | exact ($h).head_lt | exact ($h).qlen | exact ($h).tail_eq
   | exact ($h).ringq | exact ($h).wrote | exact ($h).reading | exact ($h).haveRead | exact ($h).unusedEq | exact ($h).usedEq
   | exact ($h).fink | exact ($h).seenEmpty | exact ($h).finTodo | exact ($h).inputEq | exact ($h).putEq | exact ($h).takenPerm))
 
@@ -36,8 +36,10 @@ macro "prod_close" h:ident : tactic => `(tactic| all_goals (
         simp only [*, pCrit, pHold, pPend, posted, pFin, cur] at *
         try (first | omega | (simp_all; done))))
 
-macro "lockC_close" h:ident : tactic => `(tactic| all_goals try (
-        intro i pc hi; have := ($h).lockC i pc hi; simp_all; done))
+macro "lockC_close" h:ident : tactic => `(tactic| (
+  all_goals try (case lockR => (intro j hj; dsimp only at hj; simp at hj))
+  all_goals try (
+        intro i pc hi; have := ($h).lockC i pc hi; simp_all; done)))
 
 theorem inv_pWait {c : Cfg} {n : Nat} {input : List α} {s s' : State α} (hc : c.WF) (h : Inv c n input s)
     (hs : step c s .pWait = some s') : Inv c n input s' := by
@@ -201,6 +203,8 @@ macro "cons_close" h:ident hi:ident s1:ident s2:ident s3:ident : tactic => `(tac
      rcases getElem?_set_cases hj with ⟨e1, e2⟩ | ⟨hne, hj'⟩
      · subst e1 e2; simp_all [cCrit]
      · have := ($h).lockC j pc hj'; simp_all [cCrit]))
+  all_goals try (case lockR =>
+    (intro j hj; dsimp only at hj ⊢; rw [List.length_set]; exact ($h).lockR j hj))
   all_goals try (case reading =>
     (intro j hj; dsimp only at hj ⊢
      rcases getElem?_set_cases hj with ⟨e1, e⟩ | ⟨hne, hj'⟩
@@ -257,6 +261,10 @@ theorem inv_cLock {c : Cfg} {n : Nat} {input : List α} {s s' : State α} (i : N
     old_fields h
     cons_close h hi s1 s2 s3
     case lockP => dsimp only; have := h.lockP; rw [hl] at this; simp_all
+    case lockR =>
+      intro j hj; dsimp only at hj ⊢
+      simp only [Option.some.injEq, Tid.cons.injEq] at hj; subst hj
+      rw [List.length_set]; exact (List.getElem?_eq_some_iff.1 hi).1
     case lockC =>
       intro j pc hj; dsimp only at hj ⊢
       rcases getElem?_set_cases hj with ⟨e1, e2⟩ | ⟨hne, hj'⟩
@@ -343,6 +351,7 @@ theorem inv_cUnlock {c : Cfg} {n : Nat} {input : List α} {s s' : State α} (i :
       old_fields h
       cons_close h hi s1 s2 s3
       case lockP => dsimp only; have := h.lockP; rw [hl] at this; simp_all
+      case lockR => intro j hj; dsimp only at hj; simp at hj
       case lockC =>
         intro j pc hj; dsimp only at hj ⊢
         rcases getElem?_set_cases hj with ⟨e1, e2⟩ | ⟨hne, hj'⟩
@@ -355,6 +364,7 @@ theorem inv_cUnlock {c : Cfg} {n : Nat} {input : List α} {s s' : State α} (i :
       old_fields h
       cons_close h hi s1 s2 s3
       case lockP => dsimp only; have := h.lockP; rw [hl] at this; simp_all
+      case lockR => intro j hj; dsimp only at hj; simp at hj
       case lockC =>
         intro j pc hj; dsimp only at hj ⊢
         rcases getElem?_set_cases hj with ⟨e1, e2⟩ | ⟨hne, hj'⟩
